@@ -234,6 +234,7 @@ PROPS = {
         title="Truncated files: complete records survive and the cut is visible",
         lean_modules=["Gowarc.Props.C06", "Gowarc.Props.C06built", "Gowarc.Props.C06header", "Gowarc.Props.C06after", "Gowarc.Props.C05skel"],
         audit_namespaces=["Gowarc.Props.C06"],
+        model_judged=[("cuts", "wf=f", "wf=t", "c06-survive the-uncut-file-does-not-read-back-as-clean-records-although-the-model-(C06_members_survive)-says-it-does")],
         n_quick=25, n_thorough=300,
         required_theorems=["C06_survive", "C06_survive_cut", "C06_short_tail", "C06_cut_version_line", "C06_trailer_or_finding", "readLoop_succ",
                            "C06_members_survive", "C06_cut_behind_header", "allReadAs_of_readsBack",
